@@ -166,6 +166,14 @@ def reject_shapes(h):
     Mn[0, 1] = np.nan
     raised, _ = h.raises(lambda: DCM(Mn.copy()), (ValueError, TypeError))
     h.check('DCM with a NaN entry rejected', h.true() if raised else h.false())
+    for tag, mk in (('DCM(q=zeros(4))', lambda: DCM(q=np.zeros(4))), ('DCM(axang=(zeros(3), 1))', lambda: DCM(axang=(np.zeros(3), 1.0))),
+                    ('DCM(x=nan)', lambda: DCM(x=np.nan)), ('DCM(rpy=[nan, 0, 0.1])', lambda: DCM(rpy=np.array([np.nan, 0.0, 0.1]))),
+                    ('DCM(q=[nan, 0, 0, 1])', lambda: DCM(q=np.array([np.nan, 0.0, 0.0, 1.0]))),
+                    ('DCM(axang=([0, 0, 1], nan))', lambda: DCM(axang=(np.array([0.0, 0.0, 1.0]), np.nan)))):
+        # (symbolic mode: a concrete 0/0 inside an object array raises ZeroDivisionError where NumPy gives NaN and the gate then
+        # rejects; the concrete replay on the real code is what counts for these inputs)
+        raised, _ = h.raises(mk, (ValueError, TypeError) + ((ZeroDivisionError,) if h.sym else ()))
+        h.check(f'{tag} rejected', h.true() if raised else h.false())
     raised, _ = h.raises(lambda: QuaternionArray(h.arr([x, x, x, x])), (ValueError, TypeError))
     h.check('QuaternionArray(shape (4,)) rejected', h.true() if raised else h.false())
     raised, _ = h.raises(lambda: QuaternionArray(np.zeros((2, 4))), (ValueError, TypeError))
